@@ -27,7 +27,8 @@ EXPLANATION = (
     'once and only for the current job id, initSearch/stopSearch reset the job id; (5) the worker loop passes wait -> poll -> '
     'sendStopAck(false) on every iteration that stays in the loop, doSearch passes sendStopSearch -> sendStopAck(false) -> poll '
     'until hasStopAck, the quit path polls until hasQuitAck; (6) after the inner wait loop of doSearch the engine thread either '
-    're-notifies itself or handles pending options before it can sleep again.')
+    're-notifies itself or handles pending options before it can sleep again.'
+    ' (7) completion-flag typestate of optionsSetFinished; waits written with the predicate overload are modelled like predicate loops.')
 UNDECIDED = ('absence of deadlock or lost wake-up over all interleavings of the composed protocol (a liveness property: model '
              'checking territory, a different technique family); fairness of the OS scheduler.')
 ASSUMPTIONS = ['std::condition_variable / std::mutex semantics of the C++ standard',
